@@ -38,44 +38,44 @@ Import ListNotations.
 Open Scope Z_scope.
 
 (* THE PROGRAM THEOREM *)
-Theorem C01_program_lowering_correct w (Hw : 2 <= w) funs stack args dft cmem evs res m0 :
+Theorem C01_program_lowering_correct w (Hw : 2 <= w) funs stack args dft ga ginit cmem evs res m0 :
   let C := lower_program w funs in
   let lib := size C in
-  let code := code_of (resolve (hidc_regs w dft lib) (fun _ => 0) 0 C ++ stdlib_code w lib) in
+  let code := code_of (resolve (hidc_regs_g w dft lib ga) (fun _ => 0) 0 C ++ stdlib_code w lib) in
   let n := Z.of_nat (length args) in
-  prog_ok_b w funs (length args) = true ->
+  prog_ok_b w (length ginit) funs (length args) = true ->
   0 <= stack -> lib + stdlib_len <= Machine.W w -> (stack + n + 6) * w < Machine.W w / 2 ->
-  init_ok w stack args (lib + off_all_is_win) m0 ->
-  callf w funs ((stack + n + 1) * w) 0 args evs res ->
+  init_ok w stack args (lib + off_all_is_win) ga ginit m0 ->
+  callf w funs ((stack + n + 1) * w) 0 args ginit evs res ->
   exists m', HidV.Sphinx.Halts.runs (Machine.act w code cmem) (mk 0 m0) (map EOut evs ++ result_flags res) (tnt lib m') /\
              ~ HidV.Sphinx.Halts.Halts (Machine.act w code cmem) (mk 0 m0) /\
              forall k, HidV.Sphinx.Halts.csteps (Machine.act w code cmem) (mk 0 m0)
                          (map EOut evs ++ result_flags res ++ repeat sleep_ev k) (tnt lib m').
-Proof. exact (@program_lowering_correct w Hw funs stack args dft cmem evs res m0). Qed.
+Proof. exact (@program_lowering_correct w Hw funs stack args dft ga ginit cmem evs res m0). Qed.
 
 (* C03 for the fragment: a compiled program never halts, whatever its source run does *)
-Theorem C01_program_never_halts w (Hw : 2 <= w) funs stack args dft cmem evs res m0 :
+Theorem C01_program_never_halts w (Hw : 2 <= w) funs stack args dft ga ginit cmem evs res m0 :
   let C := lower_program w funs in
   let lib := size C in
-  let code := code_of (resolve (hidc_regs w dft lib) (fun _ => 0) 0 C ++ stdlib_code w lib) in
+  let code := code_of (resolve (hidc_regs_g w dft lib ga) (fun _ => 0) 0 C ++ stdlib_code w lib) in
   let n := Z.of_nat (length args) in
-  prog_ok_b w funs (length args) = true ->
+  prog_ok_b w (length ginit) funs (length args) = true ->
   0 <= stack -> lib + stdlib_len <= Machine.W w -> (stack + n + 6) * w < Machine.W w / 2 ->
-  init_ok w stack args (lib + off_all_is_win) m0 ->
-  callf w funs ((stack + n + 1) * w) 0 args evs res ->
+  init_ok w stack args (lib + off_all_is_win) ga ginit m0 ->
+  callf w funs ((stack + n + 1) * w) 0 args ginit evs res ->
   ~ HidV.Sphinx.Halts.Halts (Machine.act w code cmem) (mk 0 m0).
-Proof. exact (@program_never_halts w Hw funs stack args dft cmem evs res m0). Qed.
+Proof. exact (@program_never_halts w Hw funs stack args dft ga ginit cmem evs res m0). Qed.
 
 (* every label of a compiled program is defined once (for every program: not part of the check) *)
 Theorem C01_program_labels_defined_once w funs : NoDup (deflabels (lower_program w funs)).
 Proof. exact (@program_labels_nodup w funs). Qed.
 
 (* the scoping part of the static check is sound for the relation the theorems use *)
-Theorem C01_scoped_check_sound w cfb (lib : Prop) (cf : nat -> nat -> Prop) :
+Theorem C01_scoped_check_sound w ng cfb (lib : Prop) (cf : nat -> nat -> Prop) :
   lib -> (forall f n, cfb f n = true -> cf f n) ->
-  (forall s ni nb il, sscoped_b w cfb ni nb il s = true -> sscoped w lib cf ni nb il s) /\
-  (forall ss ni nb il, ssscoped_b w cfb ni nb il ss = true -> ssscoped w lib cf ni nb il ss).
-Proof. exact (@scoped_b_ok w cfb lib cf). Qed.
+  (forall s ni nb il, sscoped_b w ng cfb ni nb il s = true -> sscoped w ng lib cf ni nb il s) /\
+  (forall ss ni nb il, ssscoped_b w ng cfb ni nb il ss = true -> ssscoped w ng lib cf ni nb il ss).
+Proof. exact (@scoped_b_ok w ng cfb lib cf). Qed.
 
 (* satisfiability: a program with a recursive function (factorial), a call whose result is used, and a
    division that may fault
@@ -83,10 +83,10 @@ Proof. exact (@scoped_b_ok w cfb lib cf). Qed.
      empty @is_you(int a0) { int x = f1(a0); writeln(x); int q = x / (a0 - 5); writeln(q % 7); }
    it passes the check; hidc's image satisfies init_ok for every stack size and argument; the theorem
    gives its three ways to end; and the verified VM runs the resolved model output to the same traces *)
-Example C01_program_check_sat : prog_ok_b 2 px_funs 1 = true.
+Example C01_program_check_sat : prog_ok_b 2 0 px_funs 1 = true.
 Proof. exact px_ok. Qed.
 Example C01_program_image_sat stack a0 : 0 <= stack <= 100 -> - 1000 <= a0 <= 1000 ->
-  init_ok 2 stack [a0] (px_lib + off_all_is_win) (px_mem stack a0).
+  init_ok 2 stack [a0] (px_lib + off_all_is_win) (fun _ => 0) [] (px_mem stack a0).
 Proof. exact (px_init stack a0). Qed.
 (* 40 words of stack, a0 = 4: prints "24\n4\n" (4! = 24, 24 / -1 = -24, -24 % 7 = 4), returns: flag win *)
 Example C01_program_returns_sat : exists m',
